@@ -537,6 +537,13 @@ class Interp:
                 return True
             if (n, exc.cls) in (('LookupError', 'KeyError'), ('LookupError', 'IndexError')):
                 return True
+            if exc.cls in ('DownstreamError', 'UserError') and n in EXC_CLASSES and not getattr(exc, 'not_class_' + n, False):
+                # the failure of a user callable / of a consumer further down is an exception of an ARBITRARY class: it may be
+                # exactly the class this handler names (an `except IndexError:` meant for the node's own queue also catches
+                # an IndexError raised by a consumer).  Both possibilities are explored.
+                if self.branch(z3.Bool(sym.fresh_name('failure_is_a_' + n))):
+                    return True
+                setattr(exc, 'not_class_' + n, True)
         return False
 
     def stmt_With(self, s, fr):
